@@ -839,8 +839,10 @@ def processLine (st : DState) (raw : String) : DState :=
           let ds := match st.main.mlog with | some l => l.disk | none => st.main.disk
           let st := { st with bak := { disk := ds, spec := st.main.spec, params := st.main.params, nsv := st.main.nsv, histMono := st.main.histMono }, counts := bump st.counts "backup" }
           if implToks = ["ok"] then st
-          else { st with diffs := st.diffs + 1,
-                         out := st.out.push s!"DIFF {st.line} {lhs} impl={rhs} model=ok" }
+          else
+            -- Backup of an open, healthy log into a directory the harness owns has no reason to fail
+            { st with diffs := st.diffs + 1, viols := st.viols + 1,
+                      out := (st.out.push s!"DIFF {st.line} {lhs} impl={rhs} model=ok").push s!"VIOL {st.line} BackupOK.err {lhs} impl={rhs}" }
         else
           let isB := op0.startsWith "b."
           let opName := if isB then (op0.drop 2).toString else op0
